@@ -28,7 +28,8 @@ LEVEL_TEXT = ('Sampled (quick) / sampled plus small enumerated grids (thorough) 
               'and LoRA against float64 NumPy references written from the docstrings, and of Linen against NNX on shared '
               'parameters. The hyper-parameter space is sampled on tiny tensors, so this is exploration, not proof.'
               ' Further streams: integer / bool Embed tables, constant inputs for the normalisation layers.'
-              ' Round e/f: norm_highrank, norm_axis_name (axis_name under vmap, with and without masks), LoRA narrow dtype, pooling with several batch dims, one-row Embed with a scalar index.')
+              ' Round e/f: norm_highrank, norm_axis_name (axis_name under vmap, with and without masks), LoRA narrow dtype, pooling with several batch dims, one-row Embed with a scalar index.'
+              ' Round g: masked convolutions with host-array parameters and masks, called twice.')
 LEVEL_NOTE = ('Trusts the NumPy references in vf/refs/layers.py (no jax.lax / flax call inside them), the conventions they '
               'take from the jax.lax docstrings flax defers to (SAME = ceil(n/stride) with low=total//2; conv_transpose '
               'SAME/VALID = transpose of the corresponding forward conv; ConvLocal patch axis in (c,*k) order), and the '
